@@ -9,7 +9,7 @@ try:
     commits = subprocess.check_output(['git', '-C', '/repo', 'log', '--format=%H %s']).decode().splitlines()
 except Exception:
     commits = []
-hook_commits = [c.split()[0] for c in commits if ' verif:' in c]
+hook_commits = [c.split()[0] for c in commits if c.split(' ', 1)[1].startswith('verif')]
 checks = []
 na = []
 for i in ids:
